@@ -27,6 +27,29 @@ TyEq(d, x) == d.t = x.t /\ d.bin = x.bin /\ Len(d.a) = Len(x.a) /\ (\A i \in 1..
 \* struct nodes paired with struct keys inside a pair of matching types
 TyPairs(d, x) == (IF x.sref # "" /\ d.node # 0 THEN {<<d.node, x.sref>>} ELSE {})
                  \cup UNION {TyPairs(d.a[i], x.a[i]) : i \in 1..(IF Len(d.a) < Len(x.a) THEN Len(d.a) ELSE Len(x.a))}
+\* ---- declared default values ----
+\* a constant value as written: [k: none|num|str|bool|const|enum, int, i, f, s, bv, ref, name]; consts = seq of [key, val].
+\* The names of constants are followed (a constant may name another constant or an enum value); every enum has A = 0, B = 5.
+RECURSIVE ResolveDV(_, _, _)
+ResolveDV(dv, consts, depth) ==
+  IF dv.k = "const" THEN LET i == KIdx(consts, dv.ref) IN IF i = 0 \/ depth > 8 THEN [k |-> "dangling"] ELSE ResolveDV(consts[i].val, consts, depth + 1)
+  ELSE IF dv.k = "enum" THEN [k |-> "num", int |-> TRUE, i |-> <<0, 0, 0, 0, 0, 0, 0, IF dv.name = "B" THEN 5 ELSE 0>>, f |-> <<>>]
+  ELSE dv
+BE32L(n) == <<n \div 16777216, (n \div 65536) % 256, (n \div 256) % 256, n % 256>>
+IntWidth(t) == CASE t = 3 -> 1 [] t = 6 -> 2 [] t = 8 -> 4 [] OTHER -> 8
+\* the Thrift encoding the descriptor must hold for a field of resolved type code t: [has, tb]; "unspec" when the
+\* value's kind does not fit the type (the generator does not write such defaults)
+ExpDflt(dv0, t, consts, o) ==
+  LET dv == ResolveDV(dv0, consts, 0) IN
+  IF ~o.usedflt \/ dv.k = "none" THEN [k |-> "is", has |-> FALSE, tb |-> <<>>]
+  ELSE IF dv.k = "num" /\ t \in {3, 6, 8, 10} /\ dv.int THEN [k |-> "is", has |-> TRUE, tb |-> SubSeq(dv.i, 9 - IntWidth(t), 8)]
+  ELSE IF dv.k = "num" /\ t = 4 THEN [k |-> "is", has |-> TRUE, tb |-> dv.f]
+  ELSE IF dv.k = "str" /\ t = 11 THEN [k |-> "is", has |-> TRUE, tb |-> BE32L(Len(dv.s)) \o dv.s]
+  ELSE IF dv.k = "bool" /\ t = 2 THEN [k |-> "is", has |-> TRUE, tb |-> <<IF dv.bv THEN 1 ELSE 0>>]
+  ELSE [k |-> "unspec"]
+DfltOk(df, xf, typedefs, enums, consts, o) ==
+  LET x == ExpDflt(xf.dflt, Resolve(xf.ty, typedefs, enums, o).t, consts, o) IN
+  x.k = "unspec" \/ (df.has = x.has /\ (x.has => df.tb = x.tb))
 \* ---- functions a mode exposes ----
 RECURSIVE FuncsOf(_, _, _)
 FuncsOf(key, svcs, depth) == LET i == KIdx(svcs, key) IN
@@ -48,18 +71,20 @@ ExpKeyId(st, key, o) ==
   LET S == {i \in 1..Len(st.fields) : \/ (o.mapway \in {"alias", "both"} /\ ExpAlias(st.fields[i]) = key)
                                        \/ (o.mapway \in {"name", "both"} /\ st.fields[i].name = key)} IN
   IF S = {} THEN -1 ELSE st.fields[CHOOSE i \in S : TRUE].id
-NodeWhy(dn, st, typedefs, enums, o) ==
+NodeWhy(dn, st, typedefs, enums, consts, o) ==
   IF Len(dn.fields) # Len(st.fields) THEN "field-count"
   ELSE IF {dn.found[i] : i \in 1..Len(dn.found)} # {st.fields[i].id : i \in 1..Len(st.fields)} THEN "id-lookup"
   ELSE IF ~dn.same THEN "id-lookup-identity"
   ELSE LET bad == {i \in 1..Len(dn.fields) : LET j == FIdx14(st.fields, dn.fields[i].id) IN
                      j = 0 \/ dn.fields[i].name # st.fields[j].name \/ dn.fields[i].alias # ExpAlias(st.fields[j]) \/ dn.fields[i].req # ExpReq(st, st.fields[j])
                      \/ ~TyEq(dn.fields[i].ty, Resolve(st.fields[j].ty, typedefs, enums, o))}
+           badDflt == {i \in 1..Len(dn.fields) : LET j == FIdx14(st.fields, dn.fields[i].id) IN j # 0 /\ ~DfltOk(dn.fields[i], st.fields[j], typedefs, enums, consts, o)}
            badKey == {k \in 1..Len(dn.keys) : dn.keys[k].go # ExpKeyId(st, dn.keys[k].key, o)}
            badNat == {k \in 1..Len(dn.keys) : dn.keys[k].nat # -3 /\ dn.keys[k].nat # ExpKeyId(st, dn.keys[k].key, o)} IN
        IF bad # {} THEN LET i == CHOOSE x \in bad : TRUE  j == FIdx14(st.fields, dn.fields[i].id) IN
             IF j = 0 THEN "undeclared-field" ELSE IF dn.fields[i].name # st.fields[j].name THEN "field-name" ELSE IF dn.fields[i].alias # ExpAlias(st.fields[j]) THEN "field-alias"
             ELSE IF dn.fields[i].req # ExpReq(st, st.fields[j]) THEN "field-requiredness" ELSE "field-type"
+       ELSE IF badDflt # {} THEN "field-default"
        ELSE IF badKey # {} THEN "key-lookup" ELSE IF badNat # {} THEN "native-key-lookup" ELSE ""
 Kids14(dn, st, typedefs, enums, o) == UNION {LET j == FIdx14(st.fields, dn.fields[i].id) IN
                                              IF j = 0 THEN {} ELSE TyPairs(dn.fields[i].ty, Resolve(st.fields[j].ty, typedefs, enums, o)) : i \in 1..Len(dn.fields)}
@@ -99,9 +124,9 @@ MirrorWhy(e) ==
        ELSE LET roots == UNION {FnRoots(e.fns[i], X(e.fns[i]), e.typedefs, e.enums, o) : i \in 1..Len(e.fns)}
                 pairs == Reach14({}, roots, e.nodes, e.structs, e.typedefs, e.enums, o)
                 bad == {pr \in pairs : pr[1] \notin 1..Len(e.nodes) \/ KIdx(e.structs, pr[2]) = 0
-                                       \/ NodeWhy(e.nodes[pr[1]], e.structs[KIdx(e.structs, pr[2])], e.typedefs, e.enums, o) # ""} IN
+                                       \/ NodeWhy(e.nodes[pr[1]], e.structs[KIdx(e.structs, pr[2])], e.typedefs, e.enums, e.consts, o) # ""} IN
             IF bad = {} THEN ""
             ELSE LET pr == CHOOSE x \in bad : TRUE IN
                  IF pr[1] \notin 1..Len(e.nodes) \/ KIdx(e.structs, pr[2]) = 0 THEN "harness:dangling-reference"
-                 ELSE NodeWhy(e.nodes[pr[1]], e.structs[KIdx(e.structs, pr[2])], e.typedefs, e.enums, o)
+                 ELSE NodeWhy(e.nodes[pr[1]], e.structs[KIdx(e.structs, pr[2])], e.typedefs, e.enums, e.consts, o)
 =============================================================================
